@@ -146,6 +146,16 @@ CHECKS = {
              "integrate on frames with distinct integer pixels (synthetic and loaded from .fil/.h5), and data, axes, rejection, inherited "
              "attributes, axis carried by Spectrum/TimeSeries and copy-not-view are evaluated on the implementation.",
         design="3/C17", technique="Coq proof (list routing + round-half-even monotonicity over Q) + exact correspondence on integer-tagged frames"),
+    "C16": dict(
+        text="Theorems: for any carrier and with no arithmetic law assumed, after the injection loop -- completed or interrupted by a raise on "
+             "any frame k -- every frame's time axis is the very same object as before, and the loop raises exactly at the first failing "
+             "frame; the add-then-subtract variant is refuted on binary64 ((x+o)-o <> x); over exact rationals the callables see "
+             "t_i + (t_start - t0), a drifting signal continues one time step (+ the gap) after the previous frame's last row, "
+             "overwrite_times makes every slew time exactly t_slew, and the consolidated axis has sum(tchans) entries. On the "
+             "implementation: data of every frame vs single-frame injection at shifted times, time axes bit for bit before/after (1, 2, 5 "
+             "injections, integer and unix start times, realistic dt), a callback raising on the k-th frame for every k, slices and label "
+             "subsets, slew times and consolidation.",
+        design="3/C16", technique="Coq induction over frames (law-free, Leibniz) + PrimFloat refutation + bitwise time-axis correspondence"),
 }
 
 PENDING_REASON = "check not built yet in this session (planned in DESIGN.md section 3); no claim is made for it in this commit"
